@@ -214,7 +214,6 @@ ENZO_LIST_PATTERNS = {
     "hydro_rk/TurbulenceInitialize.C": [r"const char \*(\S+?)Name\s*=\s*\"(\S+?)_Density\";", r"DataLabel\[count\+\+\]\s*=\s*\(char\*\)\s*(\S+?)Name;"],
     "hydro_rk/CollapseMHD3DInitialize.C": [r"const char \*(\S+?)Name\s*=\s*\"(\S+?)_Density\";", r"DataLabel\[count\+\+\]\s*=\s*\(char\*\)\s*(\S+?)Name;"],
 }
-GRACKLE_KNOWN = {"De", "HI", "HII", "HeI", "HeII", "HeIII", "HM", "H2I", "H2II", "DI", "DII", "HDI", "Electron", "Metal", "Dust", "ExtraType0", "ExtraType1", "kdissH2I", "kphHI", "kphHeI", "kphHeII", "PhotoGamma", "GravPotential", "Phi", "DebugName", "Phi_p", "Accel0", "Accel1", "Accel2", "Accel3"}
 GRACKLE_ALIAS = {"electron": "De", "H": "HI", "H+": "HII", "He": "HeI", "He+": "HeII", "He++": "HeIII", "H-": "HM", "H2": "H2I", "H2+": "H2II", "D": "DI", "D+": "DII", "HD": "HDI"}
 ENZO_DEFINED = set(GRACKLE_ALIAS) | {"C", "C+", "O", "O+", "Si", "Si+", "Si++", "CH", "CH2", "CH3+", "C2", "CO", "HCO+", "OH", "H2O", "O2"}
 
@@ -261,7 +260,6 @@ def enzo_tables(out, net, entries, order, label, viols):
             found = re.findall(pat, txt)
             names = [(f if isinstance(f, str) else f[0]) for f in found]
             pairs_ok = all(isinstance(f, str) or f[0] == f[1] for f in found)
-            names = [n_ for n_ in names if n_ not in GRACKLE_KNOWN]
             if names != wantl or not pairs_ok:
                 viols.append((f"C09:enzo-list:{rel.split('/')[-1]}", f"{label}: {rel} lists {names} (pairs consistent: {pairs_ok}), the non-Grackle species in slot order are {wantl}", None))
                 break
